@@ -6,6 +6,7 @@ import SolverzModel.Core.Ctl.FixedStep
 import SolverzModel.Core.Ctl.Newton
 import SolverzModel.Proofs.FixedStep
 import SolverzModel.Proofs.Newton
+import SolverzModel.Proofs.FdaeGrid
 namespace Solverz
 
 /-- **Grid, step count, buffer.**  For every `t0 ≤ tend` and every step `dt > 0` the integrator
@@ -84,6 +85,61 @@ theorem C12_step_equation_partial {S α} (O : Ord α) (stepRes : S → Option α
   simp only [nr]
   have := nrLoop_df_eq O stepRes newton tol maxIt (maxIt + 2) ⟨y0, stepRes y0, { nfeval := 1 }⟩ rfl
   rw [this]
+
+/-- **fdae_solver grid.**  For every `t0 < tend`, step `dt > 0` and end-test slack `≥ 1` the solver never fails on its
+buffer bound; the returned times start at `t0`, increase strictly, stay in `(t0, tend]`, every time but the last is
+`t0 + (j+1)·dt` exactly (the step is never changed), and the last one is `tend` itself or lies within `uround` below it. -/
+theorem C12_fdae_grid (t0 tend dt uround slack : ℚ) (hdt : 0 < dt) (hs : 1 ≤ slack) (hspan : t0 < tend) :
+    ∃ L : List ℚ, fdaeGrid ratO t0 tend dt uround slack = .ok (t0 :: L) ∧
+      (∀ x ∈ L, t0 < x ∧ x ≤ tend) ∧ L.Pairwise (· < ·) ∧
+      (∀ j, j + 1 < L.length → L[j]? = some (t0 + ((j : ℚ) + 1) * dt)) ∧
+      (∃ last, L.getLast? = some last ∧ (last = tend ∨ (0 ≤ tend - last ∧ tend - last < uround))) := by
+  have hq0 : 0 ≤ (tend - t0) / dt := div_nonneg (by linarith) hdt.le
+  have hle0 : (tend - t0) / dt ≤ (((tend - t0) / dt).ceil : ℚ) := Rat.le_ceil
+  have hc0 : 0 ≤ ((tend - t0) / dt).ceil := by
+    have : (0 : ℚ) ≤ (((tend - t0) / dt).ceil : ℚ) := le_trans hq0 hle0
+    exact_mod_cast this
+  have hceil : ratO.ceil (ratO.div (ratO.sub tend t0) dt) = ((tend - t0) / dt).ceil.toNat := rfl
+  obtain ⟨c, hc⟩ : ∃ c : ℕ, c = ((tend - t0) / dt).ceil.toNat := ⟨_, rfl⟩
+  obtain ⟨nstep, hn⟩ : ∃ n : ℕ, n = max (c + 1000) 10000 := ⟨_, rfl⟩
+  have hn1 : c + 1000 ≤ nstep := by rw [hn]; exact le_max_left _ _
+  have hn2 : 10000 ≤ nstep := by rw [hn]; exact le_max_right _ _
+  obtain ⟨s1, s2, s3, s4⟩ := fdaeLoop_spec tend uround slack dt hdt hs nstep t0 hspan
+  obtain ⟨L, hL⟩ : ∃ L, L = fdaeLoop ratO tend uround slack nstep t0 dt := ⟨_, rfl⟩
+  rw [← hL] at s1 s2 s3 s4
+  -- enough iterations
+  have hle : (tend - t0) / dt ≤ (c : ℚ) := by
+    have h2 : ((c : ℤ) : ℚ) = (((tend - t0) / dt).ceil : ℚ) := by rw [hc, Int.toNat_of_nonneg hc0]
+    have h3 : ((c : ℤ) : ℚ) = (c : ℚ) := by norm_cast
+    linarith
+  have hfuel : tend - t0 < (nstep : ℚ) * dt := by
+    have hge : (c : ℚ) + 1000 ≤ (nstep : ℚ) := by exact_mod_cast hn1
+    have : tend - t0 ≤ (c : ℚ) * dt := by
+      have := (div_le_iff₀ hdt).mp hle
+      linarith
+    have h1 : ((c : ℚ) + 1000) * dt ≤ (nstep : ℚ) * dt := mul_le_mul_of_nonneg_right hge hdt.le
+    have h2 : ((c : ℚ) + 1000) * dt = (c : ℚ) * dt + 1000 * dt := by ring
+    linarith
+  -- the buffer is large enough
+  have hlen : L.length + 1 ≤ nstep := by
+    by_cases h2 : L.length < 2
+    · omega
+    · have hj : (L.length - 2) + 1 < L.length := by omega
+      have e := s3 (L.length - 2) hj
+      have hmem : t0 + (((L.length - 2 : ℕ) : ℚ) + 1) * dt ∈ L := List.mem_of_getElem? e
+      have hb := (s1 _ hmem).2
+      have hq : ((L.length - 2 : ℕ) : ℚ) + 1 ≤ (tend - t0) / dt := by
+        rw [le_div_iff₀ hdt]; linarith
+      have hq2 : ((L.length - 2 : ℕ) : ℚ) + 1 ≤ (c : ℚ) := le_trans hq hle
+      have hq3 : (L.length - 2) + 1 ≤ c := by exact_mod_cast hq2
+      omega
+  refine ⟨L, ?_, s1, s2, s3, s4 hfuel⟩
+  unfold fdaeGrid
+  simp only [hceil, ← hc, ← hn, ← hL]
+  rw [if_neg (by omega)]
+
+/-- non-vacuity: [0, 1] with step 3/10 under the fdae rule: 0, 0.3, 0.6, 0.9, 1 (the last step is shortened) -/
+example : fdaeGrid ratO 0 1 (3/10) (1/4503599627370496) (1 + 1/1000000000) = .ok [0, 3/10, 6/10, 9/10, 1] := by decide +kernel
 
 /-- non-vacuity: [0, 1] with step 3/10 → grid 0, 0.3, 0.6, 0.9, 1.2 (overshoot < one step) -/
 example : fixedGrid ratO 0 1 (3/10) = .ok [0, 3/10, 6/10, 9/10, 12/10] := by decide +kernel
